@@ -1,4 +1,5 @@
 from ... import features
+from ...util import hashobj
 from .ancillary_feature import AncillaryFeature
 
 
@@ -62,6 +63,19 @@ def compute_volume(mm):
     return vol
 
 
+def get_bg_off_hash(mm):
+    """Requirement function for background-corrected brightness features
+
+    The optional "bg_off" feature is used in the computation if it is
+    available. The return value of this method is part of the ancillary
+    feature hash, so the features are recomputed when "bg_off" changes.
+    """
+    if "bg_off" in mm:
+        return "bg_off: " + hashobj(mm["bg_off"])
+    else:
+        return True
+
+
 def register():
     AncillaryFeature(feature_name="contour",
                      method=compute_contour,
@@ -77,19 +91,23 @@ def register():
 
     AncillaryFeature(feature_name="bright_bc_avg",
                      method=compute_bright_bc,
-                     req_features=["image", "image_bg", "mask"])
+                     req_features=["image", "image_bg", "mask"],
+                     req_func=get_bg_off_hash)
 
     AncillaryFeature(feature_name="bright_bc_sd",
                      method=compute_bright_bc,
-                     req_features=["image", "image_bg", "mask"])
+                     req_features=["image", "image_bg", "mask"],
+                     req_func=get_bg_off_hash)
 
     AncillaryFeature(feature_name="bright_perc_10",
                      method=compute_bright_perc,
-                     req_features=["image", "image_bg", "mask"])
+                     req_features=["image", "image_bg", "mask"],
+                     req_func=get_bg_off_hash)
 
     AncillaryFeature(feature_name="bright_perc_90",
                      method=compute_bright_perc,
-                     req_features=["image", "image_bg", "mask"])
+                     req_features=["image", "image_bg", "mask"],
+                     req_func=get_bg_off_hash)
 
     AncillaryFeature(feature_name="inert_ratio_cvx",
                      method=compute_inert_ratio_cvx,
